@@ -35,9 +35,9 @@ class PartialWrite(Exception):
 
 
 class Event:
-    __slots__ = ('actor', 'kind', 'path', 'path2', 'mode', 'detail', 'fd', 'fobj')
+    __slots__ = ('actor', 'kind', 'path', 'path2', 'mode', 'detail', 'fd', 'fobj', 'data')
 
-    def __init__(self, actor, kind, path='', path2='', mode='', detail='', fd=None, fobj=None):
+    def __init__(self, actor, kind, path='', path2='', mode='', detail='', fd=None, fobj=None, data=None):
         self.actor = actor
         self.kind = kind
         self.path = path
@@ -46,6 +46,7 @@ class Event:
         self.detail = detail
         self.fd = fd
         self.fobj = fobj
+        self.data = data     # payload of an f.write (for torn-write crash images)
 
     @property
     def mutating(self):
@@ -128,7 +129,7 @@ def _rel(path):
     return None
 
 
-def _emit(kind, path='', path2='', mode='', detail='', fd=None, fobj=None):
+def _emit(kind, path='', path2='', mode='', detail='', fd=None, fobj=None, data=None):
     """Deliver a 'before' event; returns the Event (or None when not delivered)."""
     cons = _state['consumer']
     if cons is None or getattr(_tl, 'busy', False):
@@ -136,7 +137,7 @@ def _emit(kind, path='', path2='', mode='', detail='', fd=None, fobj=None):
     actor = getattr(_tl, 'actor', None)
     if actor is None:
         return None
-    ev = Event(actor, kind, path, path2, mode, detail, fd, fobj)
+    ev = Event(actor, kind, path, path2, mode, detail, fd, fobj, data)
     _tl.busy = True
     try:
         cons.before(ev)
@@ -190,7 +191,7 @@ class FileProxy:
 
     def write(self, data):
         try:
-            ev = _emit('f.write', self._rel, detail=str(len(data)), fobj=self._f)
+            ev = _emit('f.write', self._rel, detail=str(len(data)), fobj=self._f, data=data)
         except PartialWrite as pw:
             # injected fault: part of the data reaches the file, then the device is full
             self._f.write(data[:pw.n])
